@@ -1,9 +1,182 @@
 (* C11 Pull combinators match iterator semantics under any pending schedule.
    This file contains only the property theorems; each is closed by an exact/apply of a
-   lemma proved in Pull/P*.v and followed by Print Assumptions. *)
-From HV Require Import Pull.Model Pull.PCore Pull.POne.
+   lemma proved in Pull/P*.v and followed by Print Assumptions.
 
-Theorem C11_map_items : forall (A B : Type) (uh : script A -> hintT) (f : A -> B) (l : script A),
-  exists l', runs_to (map_m uh f) l (map f (items l)) l'.
-Proof. exact map_runs. Qed.
-Print Assumptions C11_map_items.
+   [C11_spec m pre fin ref] (Pull/PSpec.v) says, for EVERY state s of the combinator's state
+   machine m -- i.e. every upstream script of Rdy/Pend/End answers of any length, with Pend in
+   any position, and every value of the combinator's own fields (buffered item, current inner
+   iterator, counters) -- satisfying the trait-bound precondition [pre]:
+     1. polling until the first Ended terminates and yields exactly [ref s], in order
+        ([ref] = the std iterator adaptor on the items the upstreams still hold);
+     2. after any number of polls the items emitted so far are a prefix of [ref s]
+        (nothing invented or emitted twice, wherever a Pending interrupts);
+     3. if the combinator's `impl FusedPull` condition [fin] holds, Ended is sticky;
+     4. size_hint brackets the number of items still to come (upstream hints truthful).
+   Upstream scripts may contain End in the middle (a source that resumes after reporting
+   the end), so clause 3 is a theorem about the combinator, not an assumption. *)
+From HV Require Import Pull.Model Pull.PCore Pull.POne Pull.PTwo Pull.PSpec.
+Open Scope N_scope.
+
+Theorem C11_map : forall (A B : Type) (uh : script A -> hintT), truthful uh -> forall f : A -> B,
+  C11_spec (map_m uh f) always (fun l => fused_b l = true) (fun l => map f (items l)).
+Proof. exact map_spec. Qed.
+Print Assumptions C11_map.
+
+Theorem C11_inspect : forall (A : Type) (uh : script A -> hintT), truthful uh ->
+  C11_spec (inspect_m uh) always (fun l => fused_b l = true) (fun l => items l).
+Proof. exact inspect_spec. Qed.
+Print Assumptions C11_inspect.
+
+Theorem C11_filter : forall (A : Type) (uh : script A -> hintT), truthful uh -> forall p : A -> bool,
+  C11_spec (filter_m uh p) always (fun l => fused_b l = true) (fun l => filter p (items l)).
+Proof. exact filter_spec. Qed.
+Print Assumptions C11_filter.
+
+Theorem C11_filter_map : forall (A B : Type) (uh : script A -> hintT), truthful uh ->
+  forall f : A -> option B,
+  C11_spec (filter_map_m uh f) always (fun l => fused_b l = true)
+           (fun l => filter_map_ref f (items l)).
+Proof. exact filter_map_spec. Qed.
+Print Assumptions C11_filter_map.
+
+(* state = (current inner iterator, upstream script) *)
+Theorem C11_flat_map : forall (A B : Type) (g : A -> list B),
+  C11_spec (flat_map_m g) always (fun st => fused_b (snd st) = true)
+           (fun st => match fst st with Some it => it | None => [] end
+                      ++ flat_map g (items (snd st))).
+Proof. exact flat_map_spec. Qed.
+Print Assumptions C11_flat_map.
+
+Theorem C11_flatten : forall A : Type,
+  C11_spec (@flatten_m A) always (fun st => fused_b (snd st) = true)
+           (fun st => match fst st with Some it => it | None => [] end
+                      ++ concat (items (snd st))).
+Proof. exact flatten_spec. Qed.
+Print Assumptions C11_flatten.
+
+(* TakeWhile has no FusedPull impl: no stickiness is promised *)
+Theorem C11_take_while : forall (A : Type) (uh : script A -> hintT), truthful uh ->
+  forall p : A -> bool,
+  C11_spec (take_while_m uh p) always never (fun l => take_while_ref p (items l)).
+Proof. exact take_while_spec. Qed.
+Print Assumptions C11_take_while.
+
+(* state = (skipping, upstream script); the combinator starts with skipping = true *)
+Theorem C11_skip_while : forall (A : Type) (uh : script A -> hintT), truthful uh ->
+  forall p : A -> bool,
+  C11_spec (skip_while_m uh p) always (fun st => fused_b (snd st) = true)
+           (fun st => if fst st then skip_while_ref p (items (snd st)) else items (snd st)).
+Proof. exact skip_while_spec. Qed.
+Print Assumptions C11_skip_while.
+
+(* state = (remaining, upstream script); Take is fused over ANY upstream *)
+Theorem C11_take : forall (A : Type) (uh : script A -> hintT), truthful uh ->
+  C11_spec (take_m uh) always always
+           (fun st => firstn (N.to_nat (fst st)) (items (snd st))).
+Proof. exact take_spec. Qed.
+Print Assumptions C11_take.
+
+Theorem C11_skip : forall (A : Type) (uh : script A -> hintT), truthful uh ->
+  C11_spec (skip_m uh) always (fun st => fused_b (snd st) = true)
+           (fun st => skipn (N.to_nat (fst st)) (items (snd st))).
+Proof. exact skip_spec. Qed.
+Print Assumptions C11_skip.
+
+(* state = (index, upstream script) *)
+Theorem C11_enumerate : forall (A : Type) (uh : script A -> hintT), truthful uh ->
+  C11_spec (enumerate_m uh) always (fun st => fused_b (snd st) = true)
+           (fun st => enumerate_from (fst st) (items (snd st))).
+Proof. exact enumerate_spec. Qed.
+Print Assumptions C11_enumerate.
+
+(* state = Some upstream | None once the upstream reported the end; fused over ANY upstream *)
+Theorem C11_fuse : forall (A : Type) (uh : script A -> hintT), truthful uh ->
+  C11_spec (fuse_m uh) always always
+           (fun st => match st with Some l => items l | None => [] end).
+Proof. exact fuse_spec. Qed.
+Print Assumptions C11_fuse.
+
+(* Chain<A, B> requires A : FusedPull; it is fused if B is *)
+Theorem C11_chain : forall (A : Type) (uh : script A -> hintT), truthful uh ->
+  forall uh' : script A -> hintT, truthful uh' ->
+  C11_spec (chain_m uh uh') (fun st => fused_b (fst st) = true)
+           (fun st => fused_b (snd st) = true)
+           (fun st => items (fst st) ++ items (snd st)).
+Proof. exact chain_spec. Qed.
+Print Assumptions C11_chain.
+
+(* state = (buffer, left script, right script): a buffered item counts for its side *)
+Theorem C11_zip : forall (A B : Type) (uh : script A -> hintT), truthful uh ->
+  forall uh2 : script B -> hintT, truthful uh2 ->
+  C11_spec (zip_m uh uh2) always never
+           (fun st => let '(buf, l1, l2) := st in
+                      combine (bufl buf ++ items l1) (bufr buf ++ items l2)).
+Proof. exact zip_spec. Qed.
+Print Assumptions C11_zip.
+
+(* ZipLongest requires both inputs FusedPull and is then fused *)
+Theorem C11_zip_longest : forall (A B : Type) (uh : script A -> hintT), truthful uh ->
+  forall uh2 : script B -> hintT, truthful uh2 ->
+  C11_spec (zipl_m uh uh2)
+           (fun st => let '(_, l1, l2) := st in fused_b l1 = true /\ fused_b l2 = true)
+           always
+           (fun st => let '(buf, l1, l2) := st in
+                      zip_longest_ref (bufl buf ++ items l1) (bufr buf ++ items l2)).
+Proof. exact zip_longest_spec. Qed.
+Print Assumptions C11_zip_longest.
+
+(* state = (cached singleton, item script, singleton script) *)
+Theorem C11_cross_singleton : forall (A B : Type) (uh : script A -> hintT), truthful uh ->
+  C11_spec (cross_m B uh) always
+           (fun st => fused_b (snd (fst st)) = true /\ fused_b (snd st) = true)
+           (fun st => let '(sing, li, ls) := st in
+                      match sing with
+                      | Some s => map (fun a => (a, s)) (items li)
+                      | None => cross_ref (items li) (items ls)
+                      end).
+Proof. exact cross_spec. Qed.
+Print Assumptions C11_cross_singleton.
+
+(* the run relation is functional, and the executable runner used by the check decides it *)
+Theorem C11_run_deterministic : forall (B : Type) (m : machine B) s o1 s1 o2 s2,
+  runs_to m s o1 s1 -> runs_to m s o2 s2 -> o1 = o2 /\ s1 = s2.
+Proof. intros B m s o1 s1 o2 s2 R1 R2. exact (runs_to_fun R1 R2). Qed.
+Print Assumptions C11_run_deterministic.
+
+Theorem C11_run_fuel_iff : forall (B : Type) (m : machine B) s out s',
+  runs_to m s out s' <-> exists n, run_fuel m n s = Some (out, s').
+Proof.
+  intros B m s out s'. split.
+  - intros R. destruct (run_fuel_complete R) as [n H]. exists n. apply H. apply le_n.
+  - intros [n H]. exact (run_fuel_sound m n s H).
+Qed.
+Print Assumptions C11_run_fuel_iff.
+
+(* the scripted source of the harness reports truthful hints, whatever its slack *)
+Theorem C11_source_truthful : forall (A : Type) lo hi, truthful (@slack_hint A lo hi).
+Proof. intros A lo hi. exact (slack_truthful lo hi). Qed.
+Print Assumptions C11_source_truthful.
+
+(* non-vacuity: concrete scripts with Pend between the two sides of a zip, inside a flat_map's
+   inner iterator, and a non-fused source under Fuse *)
+Example C11_ex_zip :
+  run_fuel (zip_m (slack_hint 0 (Some 0)) (slack_hint 1 None)) 20
+           (None, [Rdy 1; Pend; Rdy 2; Rdy 3], [Pend; Rdy 10; Rdy 20; End; Rdy 30])
+  = Some ([(1, 10); (2, 20)], (None, [], [Rdy 30])).
+Proof. vm_compute. reflexivity. Qed.
+
+Example C11_ex_flat_map :
+  run_fuel (flat_map_m (fun x : N => [x; x + 1])) 20 (None, [Rdy 1; Pend; Rdy 5; Pend])
+  = Some ([1; 2; 5; 6], (None, [])).
+Proof. vm_compute. reflexivity. Qed.
+
+Example C11_ex_fuse_nonfused :
+  map snd (polls (fuse_m (slack_hint 0 None)) 5 (Some [Rdy 1; End; Rdy 2; Pend]))
+  = [Ready 1; Ended; Ended; Ended; Ended]
+  /\ map snd (polls (src_m (slack_hint 0 None)) 5 [Rdy 1; End; Rdy 2; Pend])
+  = [Ready 1; Ended; Ready 2; Pending; Ended].
+Proof. split; vm_compute; reflexivity. Qed.
+
+Example C11_ex_fused_script : fused_b [Rdy 1; Pend; Rdy 2; End; End] = true
+                              /\ fused_b [Rdy 1; End; Rdy 2] = false.
+Proof. split; reflexivity. Qed.
